@@ -327,7 +327,8 @@ void vf_case(Ctx& c) {
   if (!trivial_rel && n >= 2) c.nt();
 
   // --- (3) verdicts
-  if (r_empty) {
+  if (r_empty && k.has_strict()) c.tag("relation empty only thanks to strict constraints (tests work on the closure: no verdict demanded)");
+  else if (r_empty) {
     c.check("verdict.empty.ms" + sfx, r.tms, [&] { return "termination_test_MS" + sfx + " answers false on an empty relation;" + ctx(); });
     c.check("verdict.empty.pr" + sfx, r.tpr, [&] { return "termination_test_PR" + sfx + " answers false on an empty relation;" + ctx(); });
   }
